@@ -39,7 +39,9 @@ Inductive step :=
 | StSorted (id target : N)
 | StDrop (id : N)
 | StSeed (r : crec)                 (* a crafted commit applied through Replay *)
+| StSeedDense (b : N) (cs : list (N * list op)) (cnt : N)   (* the same, with every offset of block b inserted *)
 | StTxn (body : list stmt) (commitp : bool) (o : obs)
+| StNested (pre inner : list stmt) (innercp : bool) (post : list stmt) (commitp : bool) (o : obs)
 | StRestore (o : obs)
 | StReplica (o : obs).
 
@@ -140,8 +142,23 @@ Definition do_step (cs : cstate) (st : step) : cstate * list (N * N) :=
   | StSorted id tg => (keep (create_computed s id tg (XSorted ∅)), [])
   | StDrop id => (keep (drop_computed s id), [])
   | StSeed r => (keep (replay s r), [])
+  | StSeedDense b cols cnt =>
+      (* 16384 insert markers are generated here rather than written out; the rows of the seeded
+         state are taken from the model (only Count is compared), later steps compare diffs *)
+      let r := mkcrec 0 b ((λ k, mkop KInsert (b * c_txn_lock_chunkSize + N.of_nat k) V0) <$> seq 0 (N.to_nat c_txn_lock_chunkSize)) cols in
+      let s' := replay s r in
+      (mkcs s' (dump_map s') (keys s')
+            (list_to_map ((λ id, (id, length (trig_log s' id))) <$> trig_ids s'))
+            (length (emitted s')),
+       if decide (count s' = cnt) then [] else [(T_COUNT, count s')])
   | StTxn body cp o =>
       let '(s', rs) := run_txn s body cp in compare cs s' rs o
+  | StNested pre inner icp post cp o =>
+      (* a complete transaction [inner] runs while the outer one is in flight *)
+      let '(s1, t1, r1) := do_stmts s txn0 pre in
+      let '(s2, r2) := run_txn s1 inner icp in
+      let '(s3, t3, r3) := do_stmts s2 t1 post in
+      compare cs (if cp then commit s3 t3 else rollback s3 t3) (r1 ++ r2 ++ r3) o
   | StRestore o =>
       (* the harness snapshots the collection, restores into a fresh one and goes on there *)
       let r := restore (fresh_of s) (snapshot s) in
